@@ -523,8 +523,10 @@ pub async fn nsec3_for_nodata(
             // totest, query for . DS in a root zone that uses NSEC3.
             // Avoid parent-side NSEC3 records. The parent-side record has NS
             // set but not SOA. With one exception, the DS record lives on the
-            // parent side so there the check needs to be reversed.
-            if rtype == Rtype::DS {
+            // parent side so there the check needs to be reversed. With one
+            // more exception: the root doesn't have a parent. So in the case
+            // of a DS query for the root, we accept the record at apex.
+            if rtype == Rtype::DS && *target != Name::<Vec<u8>>::root() {
                 if types.contains(Rtype::NS) && types.contains(Rtype::SOA) {
                     // totest, non-root DS and NSEC3 from apex
                     // This is an NSEC3 record from the child. Complain.
